@@ -12,3 +12,23 @@ from .fam_facts import C18, C20
 REGISTRY = {}
 for cls in (C05, C01, C03, C04, C10, C11, C19, C02, C06, C12, C08, C09, C17, C14, C15, C16, C13, C07, C18, C20):
     REGISTRY[cls.pid] = cls
+
+# tie T1: which re-translated functions (GenEq/<name>.v) each property's theorems are about.  A function's equality also breaks
+# when something it calls changes (the regenerated caller refers to the regenerated callee), so only entry points are listed.
+_API = ["Fb_new", "Fb_empty", "Fb_filled", "Fb_len", "Fb_is_empty", "Fb_clear", "Fb_mem_", "Fb_readable", "Fb_read_bytes", "Fb_read_byte",
+        "Fb_try_read_byte", "Fb_try_read_bytes", "Fb_read_all", "Fb_read_and_copy_bytes", "Fb_try_read_exact", "Fb_writable", "Fb_wrote",
+        "Fb_write_bytes", "Fb_write_str", "Fb_shift", "Fb_try_parse", "Fb_deframe", "Fb_io_write", "Fb_io_flush", "Fb_io_read",
+        "Fb_copy_once_from", "Fb_read_frame"]
+_DF = ["Df_deframe_line", "Df_deframe_crlf", "Df_deframe_null"]
+_READS = ["Fb_read_bytes", "Fb_read_byte", "Fb_try_read_byte", "Fb_try_read_bytes", "Fb_read_all", "Fb_read_and_copy_bytes", "Fb_try_read_exact"]
+GEN_SCOPE = {
+    "C01": _API, "C03": _API, "C04": _API + _DF,
+    "C02": ["Fb_read_frame"] + _DF, "C05": _DF, "C06": ["Fb_read_frame"] + _DF,
+    "C07": ["Fb_read_frame", "Fb_io_read", "Ad_chain_read", "Ad_take_read"] + _DF,
+    "C08": ["Ad_chain_read"], "C09": ["Ad_take_read"],
+    "C10": ["Fb_deframe", "Fb_mem_"] + _DF, "C11": ["Fb_try_parse"] + _READS,
+    "C12": ["Fb_read_frame", "Fb_copy_once_from"],
+    "C13": ["Ad_chain_write", "Ad_chain_flush", "Ad_take_write", "Ad_take_flush"],
+}
+for _pid, _scope in GEN_SCOPE.items():
+    REGISTRY[_pid].gen_scope = _scope
